@@ -159,7 +159,7 @@ def hostfiles(tmpd):
 
 def run(ctx):
     exe = build_all()
-    n = ctx.size(36, 1200)
+    n = ctx.size(30, 1200)
     tmpd = tempfile.mkdtemp(prefix="verif-C36-")
     try:
         hf = hostfiles(tmpd)
